@@ -38,8 +38,8 @@ C["C01"] = dict(level="other",
  stubs=["zzMsgs (socket.Messages)", "funcs model", "zzBytesCodec (body codec)", "hslam/log (empty bodies)"],
  bounds={"calls per connection": "quick 2, thorough 3", "payload": "1 symbolic byte per call (client), 1 or 10 bytes (server)", "initial sequence number": "quick 0; thorough: any 64-bit value (symbolic)", "framing": "2 frames, payloads 0..2 and 1..2 bytes, every chunking of the stream", "schedules": SCHED, "pool policy": "sync.Pool LIFO reuse (maximal aliasing)"},
  outside=["TCP itself, the auto-batching writer of hslam/writer", "more outstanding calls than the bound", "Transport/Client wrappers (address routing is C14/C16)", "payloads larger than the stated sizes (header codecs at all boundaries: C07)"],
- runs={"quick": [run("CLI", labels=CLI_C01), run("CLIb", labels=CLI_C01), run("SRV", labels=SRV_C01), run("SRV", params={"srv.nocopy": 1, "srv.N": 3, "srv.kinds": 2, "srv.arglens": 1, "srv.concrete": 1, "srv.bufsizes": 1}, labels=SRV_C01), run("FRAM")],
-       "thorough": [run("CLI", params={"cli.K": 3}, labels=CLI_C01, budget=900), run("CLI", params={"cli.symseq": 1}, labels=CLI_C01, budget=900), run("SRV", params={"srv.N": 3, "srv.kinds": 3, "srv.arglens": 1, "srv.bufsizes": 1}, labels=SRV_C01, budget=1200), run("SRV", params={"srv.nocopy": 1, "srv.N": 3, "srv.kinds": 3, "srv.arglens": 1, "srv.bufsizes": 1}, labels=SRV_C01, budget=1500), run("CLIb", params={"clib.K": 4}, labels=CLI_C01, budget=1200), run("FRAM")]})
+ runs={"quick": [run("CLI", labels=CLI_C01), run("CLIb", labels=CLI_C01), run("SRV", labels=SRV_C01), run("SRV", params={"srv.nocopy": 1, "srv.N": 3, "srv.kinds": 2, "srv.arglens": 1, "srv.concrete": 1, "srv.bufsizes": 2}, labels=SRV_C01), run("SRVn", labels=SRV_C01 + ["one-response-per-request"]), run("FRAM")],
+       "thorough": [run("SRVn", params={"srvn.full": 1}, labels=SRV_C01 + ["one-response-per-request"], budget=1500), run("CLI", params={"cli.K": 3}, labels=CLI_C01, budget=900), run("CLI", params={"cli.symseq": 1}, labels=CLI_C01, budget=900), run("SRV", params={"srv.N": 3, "srv.kinds": 3, "srv.arglens": 1, "srv.bufsizes": 1}, labels=SRV_C01, budget=1200), run("SRV", params={"srv.nocopy": 1, "srv.N": 3, "srv.kinds": 3, "srv.arglens": 1, "srv.bufsizes": 2}, labels=SRV_C01, budget=1500), run("CLIb", params={"clib.K": 4}, labels=CLI_C01, budget=1200), run("FRAM")]})
 
 C["C02"] = dict(level="other",
  explanation="Symbolic execution of the real Conn code over the stub socket: K asynchronous calls; the environment delivers a bounded script of frames whose sequence numbers are chosen freely (own, duplicate, unknown), with or without error text, a write may fail, the peer may disconnect, the read may fail, the client may Close; every macro-step interleaving is explored. In every terminal state each call's Done channel holds the call exactly once. Each violation is attributed to the set of code sites that signalled the call (watch on (*Call).done).",
@@ -67,7 +67,7 @@ C["C04"] = dict(level="other",
  stubs=["zzMsgs", "funcs model", "zzBytesCodec", "hslam/log"],
  bounds={"requests": "quick 2, thorough 3", "args": "1 or 10 symbolic bytes", "modes": "pipelining x directIO x shared x bufsize{8,64}", "schedules": SCHED},
  outside=["handler bodies and reflection internals", "poll mode (C05 SRVp and stream harnesses only)", "Client.Call never retries: covered through the CLT harness's one-roundtrip-per-call label under C16"],
- runs={"quick": [run("SRV", params={"srv.kinds": 8}, labels=SRV_C04 + ["rejected-request-not-answered"]), run("SRV", params={"srv.N": 3, "srv.kinds": 3, "srv.menu": 1}, labels=SRV_C04 + ["rejected-request-not-answered", "panic"]), run("TRretry")], "thorough": [run("SRV", params={"srv.N": 3, "srv.kinds": 8, "srv.arglens": 1, "srv.bufsizes": 1}, labels=SRV_C04 + ["rejected-request-not-answered"], budget=3000), run("TRretry"), run("TRretry", P=1, gran=1)]})
+ runs={"quick": [run("SRV", params={"srv.kinds": 8}, labels=SRV_C04 + ["rejected-request-not-answered"]), run("SRV", params={"srv.N": 3, "srv.kinds": 3, "srv.menu": 1}, labels=SRV_C04 + ["rejected-request-not-answered", "panic"]), run("SRVn", labels=["reply-of-own-args", "one-response-per-request"]), run("TRretry")], "thorough": [run("SRVn", params={"srvn.full": 1}, labels=["reply-of-own-args", "one-response-per-request"], budget=1500), run("SRV", params={"srv.N": 3, "srv.kinds": 8, "srv.arglens": 1, "srv.bufsizes": 1}, labels=SRV_C04 + ["rejected-request-not-answered"], budget=3000), run("TRretry"), run("TRretry", P=1, gran=1)]})
 
 C["C05"] = dict(level="other",
  explanation="Server: SRV harness with pipelining on and handlers that yield in the middle: executions never overlap, execution order and response order (pings excepted: they are not executed and may be answered by the decode worker) equal arrival order. Client: CLI harness with SetPipelining: calls issued by one goroutine on a shared Done channel must be signalled in issue order for every mix of success and server-reported error.",
